@@ -399,6 +399,8 @@ def run_batch(pid, tier, batch_seed, budget_s=None, n_runs=None):
     if budget_s is None:
         budget_s = float(os.environ.get("VERIF_BUDGET_S", 0)) or cfg.get("budget_s", 600)
     chunk = cfg.get("chunk", 200)
+    if n_runs:
+        chunk = max(1, min(chunk, n_runs // (n_workers() * 3) or 1))     # small batches are spread over all workers
     per_run_timeout = cfg.get("per_run_timeout", 120)
     workers = min(n_workers(), cfg.get("max_workers", 16))
     selftest_n = 0 if os.environ.get("VERIF_NO_SELFTEST") else cfg.get("selftest", 0)
